@@ -1,8 +1,10 @@
 """C06 -- stream join/free and finalize wait for all work; the blocked-unit
 counter that drives the decision is balanced (structural part)."""
+import re
+
 from abtverif import canon, cfg, seq
-from abtverif.seq import idx, is_call, show, has_if, atomic_cmp
-from . import common
+from abtverif.seq import idx, is_call, show, has_if
+from . import common, c06_refs
 
 EXPLANATION = (
     "Decides the bookkeeping that ABT_xstream_join/free and ABT_finalize rely on.  R1: in every callback that "
@@ -24,6 +26,7 @@ DECLINED = ["that user-defined schedulers honour ABT_sched_has_to_stop / keep po
             "numeric value of the counter over histories (only per-path balance and ordering)"]
 ASSUMPTIONS = ["C02/C11: each switch primitive runs exactly the callback it passes"]
 RULES_DOC = dict(common.SHARED_DOC)
+RULES_DOC["R9"] = c06_refs.DOC
 RULES_DOC.update({
     "R1": "count-before-publish: inc_num_blocked precedes the BLOCKED release-store in every suspend callback",
     "R2": "push-before-uncount in resume_and_push / thread_yield_to callback (pool loaded before the push); yield_to pre-increment rolled back on error",
@@ -42,29 +45,226 @@ SUSPEND_CBS = ["ABTI_ythread_callback_suspend", "ABTI_ythread_callback_resume_su
 INC, DEC = "ABTI_pool_inc_num_blocked", "ABTI_pool_dec_num_blocked"
 
 
+# ---- private, name-independent helpers (also used by rules/C11.py) -----------------------------
+
+_EXPECT = ("__builtin_expect", "ABTU_likely", "ABTU_unlikely")
+
+
+def _origin(F, node, depth=5, at=None):
+    """(expression node, node it is evaluated at) the value of `node` comes from: a local is followed
+    through its single reaching definition (plain copies, casts), whatever the local is called."""
+    at = node if at is None else at
+    i = F.strip(node)
+    while depth > 0:
+        nd = F.nodes[i]
+        if nd.get("k") == "ref" and nd.get("dk") == "var":
+            d = canon.reaching_def(F, nd["n"], at)
+            if isinstance(d, int) and d >= 0:
+                at, i, depth = d, F.strip(d), depth - 1
+                continue
+        break
+    return i, at
+
+
+def rooted(F, i, depth=4, at=None):
+    """canon.rooted (access path that keeps the identity of the object, locals resolved through their single reaching
+    definition) that additionally folds `(&x->f)->g` to `x->f.g` and `*&x` to `x`, so that a temporary holding the
+    address of a sub-object (`ABTI_thread *p_t = &p_y->thread; p_t->p_pool`) renders like the direct access."""
+    at = i if at is None else at
+    i = F.strip(i)
+    if i is None or i < 0:
+        return ""
+    nd = F.nodes[i]
+    k = nd.get("k")
+    if k == "mem":
+        b = rooted(F, nd["b"], depth, at)
+        if nd["arrow"] and b.startswith("&") and _addr_of(F, nd["b"], depth, at):
+            return "%s.%s" % (b[1:], nd["f"])
+        return "%s%s%s" % (b, "->" if nd["arrow"] else ".", nd["f"])
+    if k == "un" and nd["op"] in ("&", "*"):
+        inner = rooted(F, nd["e"], depth, at)
+        if nd["op"] == "*" and inner.startswith("&") and _addr_of(F, nd["e"], depth, at):
+            return inner[1:]
+        return nd["op"] + inner
+    if k == "idx":
+        return "%s[%s]" % (rooted(F, nd["b"], depth, at), canon.expr(F, nd["i"], 1, at))
+    if k == "ref":
+        if nd.get("dk") == "var" and depth > 0:
+            d = canon.reaching_def(F, nd["n"], at)
+            if isinstance(d, int) and d >= 0:
+                dn = F.nodes[F.strip(d)]
+                if dn.get("k") in ("ref", "un", "idx", "mem"):
+                    return rooted(F, d, depth - 1, d)
+                if dn.get("k") == "call":
+                    return canon.expr(F, d, 1, d)
+        return nd["n"]
+    return canon.expr(F, i, 1, at)
+
+
+def _addr_of(F, i, depth, at):
+    """is the value of expression i (after resolving locals) literally an address-of expression `&E`?"""
+    nd = F.nodes[_origin(F, i, at=at)[0]]
+    return nd.get("k") == "un" and nd["op"] == "&"
+
+
+def _eq_operands(F, node):
+    """(lhs, rhs) of the ==/!= comparison a condition atom finally tests, looking through `!`, likely(),
+    `c ? TRUE : FALSE`, `(a == b) == 0` and locals that only hold the comparison (the same way
+    canon.cond does, so the polarity of the canonical label applies); None if there is none."""
+    i = node
+    for _ in range(10):
+        i = F.strip(i)
+        nd = F.nodes[i]
+        k = nd.get("k")
+        if k == "un" and nd["op"] == "!":
+            i = nd["e"]
+        elif k == "call" and nd.get("fn") in _EXPECT and nd.get("a"):
+            i = nd["a"][0]
+        elif k == "ref" and nd.get("dk") == "var":
+            d = canon.reaching_def(F, nd["n"], i)
+            if not (isinstance(d, int) and d >= 0):
+                return None
+            i = d
+        elif k == "cond":
+            tv, ev = F.nodes[F.strip(nd["th"])].get("cv"), F.nodes[F.strip(nd["el"])].get("cv")
+            if tv is None or ev is None or bool(tv) == bool(ev):
+                return None
+            i = nd["c"]
+        elif k == "bin" and nd["op"] in ("==", "!="):
+            for a, b in ((nd["lh"], nd["rh"]), (nd["rh"], nd["lh"])):
+                if canon._is_zero(F, b) and not canon._is_const(F, a):
+                    i = a
+                    break
+            else:
+                return nd["lh"], nd["rh"]
+        else:
+            return None
+    return None
+
+
+def atomic_test(F, node, field, value):
+    """'acquire' | 'relaxed' if the condition atom compares an atomic load of `field` ('Rec::name') with the
+    constant `value` (directly or through a local that holds the loaded value); else None.  The truth of the
+    canonical label (`load == value`) applies."""
+    ops = _eq_operands(F, node)
+    if not ops:
+        return None
+    for a, b in (ops, ops[::-1]):
+        src, _at = _origin(F, a)
+        an, bn = F.nodes[src], F.nodes[F.strip(b)]
+        if an.get("k") == "call" and (an.get("fn") or "").startswith("ABTD_atomic_") and "_load_" in an["fn"] and an["a"]:
+            fo = field_of_through(F, an["a"][0])
+            if fo and "%s::%s" % fo == field and bn.get("cv") == value:
+                return "acquire" if "acquire" in an["fn"] else "relaxed"
+    return None
+
+
+def field_of_through(F, node):
+    """F.field_of, also when the address of the member is held in a local (`ABTD_atomic_int *p = &x->state`)"""
+    fo = F.field_of(node)
+    if fo is None:
+        src, _at = _origin(F, node)
+        if src != F.strip(node):
+            fo = F.field_of(src)
+    return fo
+
+
+class Sel(seq.Sel):
+    """seq.Sel that also recognises an atomic store / RMW wrapper on a selected field when the address of the field
+    reaches the wrapper through a local pointer (emulates a missing engine feature; same token shape)."""
+
+    def select(self, F, nid, ctx):
+        tok = seq.Sel.select(self, F, nid, ctx)
+        if tok is None and self.fields:
+            nd = F.nodes[nid]
+            fn = nd.get("fn") if nd.get("k") == "call" else None
+            if fn and fn.startswith("ABTD_atomic_") and "_load_" not in fn and nd["a"] and F.field_of(nd["a"][0]) is None:
+                fo = field_of_through(F, nd["a"][0])
+                if fo and (fo[1] in self.fields or "%s::%s" % fo in self.fields):
+                    val = None
+                    if len(nd["a"]) > 1:
+                        val = ctx.value(nd["a"][-1])
+                        if val is None:
+                            val = self._txt(F, nd["a"][-1])
+                    return ("ast", fn, "%s::%s" % fo, val, nid)
+        return tok
+
+
+def descendants_through(F, node, depth=3):
+    """sub-expression nodes of `node`, and of the definitions of the locals it mentions (`q = f(x); if (q != 1)`
+    still shows the call f(x))"""
+    out = list(F.descendants(node))
+    if depth > 0:
+        for d in list(out):
+            dn = F.nodes[d]
+            if dn.get("k") == "ref" and dn.get("dk") == "var":
+                src, at = _origin(F, d, depth=1)
+                if src != F.strip(d):
+                    out += descendants_through(F, src, depth - 1)
+    return out
+
+
+def macros_through(F, node, depth=3):
+    """macros whose expansion produced any part of the expression, also inside the definitions of the locals it
+    mentions (`m = req & MASK; if (m != 0)` still shows MASK)"""
+    out = set(seq.macros_in(F, node))
+    if depth > 0:
+        for d in F.descendants(node):
+            dn = F.nodes[d]
+            if dn.get("k") == "ref" and dn.get("dk") == "var":
+                src, at = _origin(F, d, depth=1)
+                if src != F.strip(d):
+                    out |= macros_through(F, src, depth - 1)
+    return out
+
+
+def _rd_index(F, toks, mem):
+    """index of the ('rd', ...) token of the load of member-access node `mem` on this path, or None"""
+    for i, t in enumerate(toks):
+        if t[0] == "rd" and t[2] is None and F.nodes[t[-1]].get("e") == mem:
+            return i
+    return None
+
+
+def _pool_of(F, node):
+    """(object identity, mem node) when the value of `node` is a read of some unit's ABTI_thread::p_pool (possibly
+    through locals), else (rendering, None).  Identity is canon.rooted: `arg->p_prev->thread.p_pool`."""
+    src, at = _origin(F, node)
+    if F.nodes[src].get("k") == "mem" and F.field_of(src) == ("ABTI_thread", "p_pool"):
+        return rooted(F, src), src
+    return rooted(F, node), None
+
+
+def _unit(F, path):
+    """'prev' | 'next' | path: which unit of a post-switch callback an access path belongs to.  The callback's own
+    argument (or the p_prev member of its argument struct) is the outgoing unit, p_next the resumed one."""
+    p0 = F.params[0]["n"]
+    if path.startswith(p0 + "->p_prev->") or path.startswith(p0 + "->thread."):
+        return "prev"
+    if path.startswith(p0 + "->p_next->"):
+        return "next"
+    return path
+
+
+def _cb_cond(text, F, node):
+    ops = _eq_operands(F, node)
+    if ops:
+        sides = sorted(_unit(F, _pool_of(F, x)[0]) for x in ops if _pool_of(F, x)[1] is not None)
+        if sides == ["next", "prev"]:
+            return "same-pool"          # canonical polarity: true = the two units share one pool
+    return "ABTI_thread_handle_request(" in text
+
+
 def _cb_sel():
-    return seq.Sel(calls={INC, DEC, "ABTI_thread_handle_request", "ABTI_pool_add_thread", "ABTI_thread_terminate"},
-                   fields={"state"}, conds=lambda t: "p_prev_pool" in t or "handle_request" in t,
-                   decls={"p_pool", "p_prev_pool", "p_next_pool", "p_prev", "p_next"})
+    return Sel(calls={INC, DEC, "ABTI_thread_handle_request", "ABTI_pool_add_thread", "ABTI_thread_terminate"},
+                   fields={"state"}, conds=_cb_cond, canon=True)
 
 
 def _pool_expr(F, nid):
-    """(base ULT variable, how the pool value was obtained, node of the p_pool read)"""
-    nd = F.nodes[nid]
-    a = F.strip(nd["a"][0])
-    an = F.nodes[a]
-    if an.get("k") == "mem" and an["f"] == "p_pool":
-        return F.base_var(a), "direct", a
-    if an.get("k") == "ref":
-        # local variable: find its (single) definition
-        for bid, j in F.all_events():
-            dn = F.nodes[j]
-            if dn.get("k") == "decl":
-                for v in dn["vars"]:
-                    if v["n"] == an["n"] and "init" in v:
-                        i2 = F.strip(v["init"])
-                        if F.nodes[i2].get("k") == "mem" and F.nodes[i2]["f"] == "p_pool":
-                            return F.base_var(i2), "local", j
+    """(identity of the unit whose pool is counted, how the pool value was obtained, node of the p_pool read)"""
+    path, mem = _pool_of(F, F.nodes[nid]["a"][0])
+    if mem is not None:
+        return _unit(F, path), "read", mem
     return None, "unknown", nid
 
 
@@ -82,7 +282,7 @@ def rule_R1_R3_R4(P, rep):
             why = []
             if len(st) != 1:
                 why.append("BLOCKED stored %d times" % len(st))
-            elif cb == "ABTI_ythread_callback_resume_suspend_to" and has_if(toks, "p_prev_pool != p_next_pool", False):
+            elif cb == "ABTI_ythread_callback_resume_suspend_to" and has_if(toks, "same-pool", True):
                 if incs or decs:
                     why.append("same pool: the +1/-1 pair must be skipped entirely")
             else:
@@ -95,7 +295,7 @@ def rule_R1_R3_R4(P, rep):
         for bid, nid in F.calls(INC):
             base, how, readnode = _pool_expr(F, nid)
             stores = [i for b, i in F.calls() if F.nodes[i].get("fn", "").startswith("ABTD_atomic_release_store_int") and
-                      F.field_of(F.nodes[i]["a"][0]) == ("ABTI_thread", "state")]
+                      field_of_through(F, F.nodes[i]["a"][0]) == ("ABTI_thread", "state")]
             bad = []
             for b2, c in F.calls():
                 cn = F.nodes[c]
@@ -107,8 +307,8 @@ def rule_R1_R3_R4(P, rep):
                     bad.append("%s at %s may write ABTI_thread::p_pool (%s) after the pool was read at %s" %
                                (cn["fn"], F.loc(c), " -> ".join(chain), F.loc(readnode)))
             ok = base is not None and not bad
-            rep.ob("R3", "%s increments the counter of the pool %s belongs to when BLOCKED is published" % (cb, base),
-                   ok, "; ".join(bad) or ("pool expression not understood (%s)" % how), loc=F.loc(nid),
+            rep.ob("R3", "%s increments the counter of the pool the outgoing unit belongs to when BLOCKED is published" % cb,
+                   ok, "; ".join(bad) or ("pool expression not understood (%s: %s)" % (how, base)), loc=F.loc(nid),
                    site="%s/stale-pool" % cb)
     # R4 classes
     classes = {
@@ -132,15 +332,8 @@ def rule_R1_R3_R4(P, rep):
             incs = [toks[i] for i in idx(toks, is_call(INC))]
             decs = [toks[i] for i in idx(toks, is_call(DEC))]
             def who(t):
-                # identity of the unit whose pool is counted: the callback's own argument (or the p_prev
-                # member of its argument struct) is the outgoing unit, the p_next member the resumed one
-                a = canon.rooted(F, F.nodes[t[-1]]["a"][0])
-                p0 = F.params[0]["n"]
-                if a.startswith(p0 + "->p_prev->") or a.startswith(p0 + "->thread."):
-                    return "prev"
-                if a.startswith(p0 + "->p_next->"):
-                    return "next"
-                return a
+                # identity of the unit whose pool is counted (see _unit)
+                return _unit(F, _pool_of(F, F.nodes[t[-1]]["a"][0])[0])
             got = sorted(["+1 " + who(t) for t in incs] + ["-1 " + who(t) for t in decs])
             if cls == "0":
                 want = [[]]
@@ -149,8 +342,8 @@ def rule_R1_R3_R4(P, rep):
             elif cls == "-1 next":
                 want = [["-1 next"]]
             elif cls.startswith("+1 prev, -1 next"):
-                want = [["+1 prev", "-1 next"], []] if not has_if(toks, "p_prev_pool != p_next_pool", True) else [["+1 prev", "-1 next"]]
-                if has_if(toks, "p_prev_pool != p_next_pool", False):
+                want = [["+1 prev", "-1 next"], []] if not has_if(toks, "same-pool", False) else [["+1 prev", "-1 next"]]
+                if has_if(toks, "same-pool", True):
                     want = [[]]
             else:
                 want = [["-1 prev"]]
@@ -161,50 +354,59 @@ def rule_R1_R3_R4(P, rep):
     rep.min_instances("R4", 12)
 
 
+POOLF = "ABTI_thread::p_pool"
+
+
 def rule_R2(P, rep):
     F = P.fn("ABTI_ythread_resume_and_push", "src/include/abti_ythread.h")
-    sel = seq.Sel(calls={"ABTI_pool_add_thread", DEC, INC}, decls={"p_pool"})
+    unit = [p["n"] for p in F.params if p["t"].replace(" ", "") == "ABTI_ythread*"]
+    rep.need(len(unit) == 1, "ABTI_ythread_resume_and_push: no single ABTI_ythread * parameter")
+    sel = Sel(calls={"ABTI_pool_add_thread", DEC, INC}, reads={POOLF}, canon=True)
     for toks, kind, rv, rtxt in seq.sequences(F, sel):
         if kind != "ret":
             continue
         why = []
         add = idx(toks, is_call("ABTI_pool_add_thread"))
         dec = idx(toks, is_call(DEC))
-        rd = [i for i, t in enumerate(toks) if t[0] == "decl" and t[1] == "p_pool"]
         if len(add) != 1 or len(dec) != 1:
             why.append("must push once and decrement once")
         else:
             if not add[0] < dec[0]:
                 why.append("blocked count decremented before the unit is pushed: size + blocked can read 0 while the unit "
                            "is in flight and the only scheduler of the pool may terminate")
-            if not rd or rd[0] > add[0] or toks[rd[0]][2] != "p_ythread->thread.p_pool":
+            # the value handed to the decrement: which read of ABTI_thread::p_pool produced it, and when
+            path, mem = _pool_of(F, F.nodes[toks[dec[0]][-1]]["a"][0])
+            rd = _rd_index(F, toks, mem) if mem is not None else None
+            if mem is None or path != unit[0] + "->thread.p_pool":
+                why.append("decrements %s instead of the pool of the resumed unit loaded before the push" % path)
+            elif rd is None or rd > add[0]:
                 why.append("pool not loaded before the push (after the push another stream may re-associate the unit)")
-            elif toks[dec[0]][2] != ("var:p_pool",):
-                why.append("decrements %s instead of the pool loaded before the push" % (toks[dec[0]][2],))
         rep.ob("R2", "resume_and_push: READY+push, then decrement of the pre-loaded pool [%s]" % show(toks), not why,
                "; ".join(why), loc="%s:%d" % (F.file, F.line), site="resume_and_push")
     F = P.fn("ABTI_ythread_callback_thread_yield_to", Y)
-    sel = seq.Sel(calls={"ABTI_pool_add_thread", DEC, INC, "ABTI_thread_handle_request"}, decls={"p_pool"},
-                  conds=lambda t: "handle_request" in t)
+    sel = Sel(calls={"ABTI_pool_add_thread", DEC, INC, "ABTI_thread_handle_request"}, reads={POOLF},
+                  conds=lambda t: "ABTI_thread_handle_request(" in t, canon=True)
     for toks, kind, rv, rtxt in seq.sequences(F, sel):
         if kind != "ret":
             continue
         why = []
         add = idx(toks, is_call("ABTI_pool_add_thread"))
         dec = idx(toks, is_call(DEC))
-        rd = [i for i, t in enumerate(toks) if t[0] == "decl" and t[1] == "p_pool"]
         hr = idx(toks, is_call("ABTI_thread_handle_request"))
         if len(dec) != 1:
             why.append("the pre-increment of ABT_thread_yield_to is undone %d times on this path" % len(dec))
         else:
             if add and add[0] > dec[0]:
                 why.append("decrement before the push")
-            if not rd or (hr and rd[0] > hr[0]) or toks[dec[0]][2] != ("var:p_pool",):
+            path, mem = _pool_of(F, F.nodes[toks[dec[0]][-1]]["a"][0])
+            rd = _rd_index(F, toks, mem) if mem is not None else None
+            if mem is None or _unit(F, path) != "prev" or rd is None or (hr and rd > hr[0]) or (add and rd > add[0]):
                 why.append("must decrement the pool loaded before request handling / push (the one that was incremented)")
         rep.ob("R2", "thread_yield_to callback path [%s]" % show(toks)[:220], not why, "; ".join(why),
                loc="%s:%d" % (F.file, F.line), site="callback_thread_yield_to/%d" % len(add))
     F = P.fn("ABT_thread_yield_to", "src/thread.c")
-    sel = seq.Sel(calls={INC, DEC, "ABTI_pool_remove", "ABTI_ythread_thread_yield_to"}, conds=lambda t: "abt_errno" in t)
+    sel = Sel(calls={INC, DEC, "ABTI_pool_remove", "ABTI_ythread_thread_yield_to"},
+                  conds=lambda t: "ABTI_pool_remove(" in t, canon=True)
     n = 0
     for toks, kind, rv, rtxt in seq.sequences(F, sel):
         rm = idx(toks, is_call("ABTI_pool_remove"))
@@ -225,19 +427,54 @@ def rule_R2(P, rep):
         else:
             if len(dec) != 1:
                 why.append("error path leaves the pre-increment in place")
-            elif inc and F.render(F.nodes[toks[inc[0]][-1]]["a"][0]) != F.render(F.nodes[toks[dec[0]][-1]]["a"][0]):
+            elif inc and rooted(F, F.nodes[toks[inc[0]][-1]]["a"][0]) != rooted(F, F.nodes[toks[dec[0]][-1]]["a"][0]):
                 why.append("rolls back a different pool")
-        rep.ob("R2", "ABT_thread_yield_to path -> %s [%s]" % (rtxt, show(toks)[:200]), not why, "; ".join(why),
-               loc="%s:%d" % (F.file, F.line), site="ABT_thread_yield_to/%s" % ("switch" if sw else "error"))
+        rep.ob("R2", "ABT_thread_yield_to path -> %s [%s]" % (rv if rv is not None else rtxt, show(toks)[:200]), not why,
+               "; ".join(why), loc="%s:%d" % (F.file, F.line), site="ABT_thread_yield_to/%s" % ("switch" if sw else "error"))
     rep.need(n >= 2, "ABT_thread_yield_to: %d paths through pool_remove" % n)
     rep.min_instances("R2", 5)
 
 
+def _all_cond_labels(F):
+    """canonical labels of every branch condition of F (name- and polarity-independent)"""
+    out = []
+    for bid, B in F.blocks.items():
+        if B.tc is not None:
+            aj, _t = cfg.cond_atom(F, B.tc, True)
+            out.append(canon.cond(F, aj)[0])
+    return out
+
+
+def _hu_cond(t):
+    """has_unit: the rule's own labels for the canonical conditions (truth = the expression is non-zero / holds)"""
+    if t.endswith(" < ABTI_sched::num_pools"):
+        return "more-pools"
+    if "ABTI_pool_is_empty(" in t:
+        e = t[:-5] if t.endswith(") == 1") else t          # `== ABT_TRUE`
+        return "empty" if e.startswith("ABTI_pool_is_empty(") and " == " not in e and " < " not in e else "empty:" + t
+    if "ABTI_pool::num_blocked" in t:
+        x = t[4:] if t.startswith("0 < ") else t            # `> 0`
+        return "blocked" if x.startswith("ABTD_atomic_") and x.endswith("&ABTI_pool::num_blocked)") else "blocked:" + t
+    if "ABTI_pool::num_scheds" in t:
+        return "sole-sched" if t.endswith("&ABTI_pool::num_scheds) == 1") else "scheds:" + t
+    return None
+
+
+def _hs_cond(t):
+    """has_to_stop: every condition is kept; short labels for the instances"""
+    if t.startswith("ABTI_sched_has_unit(") and t.endswith(")") and " == " not in t:
+        return "has_unit"
+    if "ABTI_sched_has_unit(" in t:
+        return "has_unit?" + t
+    m = re.match(r"^ABTD_atomic_(\w+)_load_uint32\(&ABTI_sched::request\) & (\d+)$", t)
+    if m:
+        return "request&%s" % m.group(2)
+    return t
+
+
 def rule_R5(P, rep):
     F = P.fn("ABTI_sched_has_unit", "src/sched/sched.c")
-    sel = seq.Sel(calls={"ABTI_pool_is_empty"}, rets=True,
-                  conds=lambda t: "is_empty" in t or "num_blocked" in t or "num_scheds" in t or "p < num_pools" in t)
-    sel.conds = lambda t: True if ("is_empty" in t or "num_blocked" in t or "num_scheds" in t or t == "p < num_pools") else False
+    sel = Sel(calls={"ABTI_pool_is_empty"}, rets=True, conds=_hu_cond, canon=True)
     ps = seq.sequences(F, sel, max_repeat=2, max_len=60)
     n_false = 0
     for toks, kind, rv, rtxt in ps:
@@ -246,47 +483,50 @@ def rule_R5(P, rep):
         why = []
         if rv == 0:
             n_false += 1
-            loop = [t for t in toks if t[0] == "if" and t[1] == "p < num_pools"]
+            loop = [t for t in toks if t[0] == "if" and t[1] == "more-pools"]
             if not loop or loop[-1][2] is not False:
                 why.append("returns FALSE before all pools were inspected")
-            if any(t[0] == "if" and "is_empty" in t[1] and ((t[1].startswith("!") or "== 0" in t[1]) == t[2]) and False for t in toks):
-                pass
         else:
             # TRUE must be justified by the immediately preceding test: non-empty pool or non-zero blocked count
-            conds = [t for t in toks if t[0] == "if" and t[1] != "p < num_pools"]
+            conds = [t for t in toks if t[0] == "if" and t[1] != "more-pools"]
             last = conds[-1] if conds else None
-            ok = last is not None and (("ABTI_pool_is_empty" in last[1] and last[2] is False) or
-                                       ("num_blocked" in last[1] and last[2] is True))
+            ok = last is not None and ((last[1] == "empty" and last[2] is False) or
+                                       (last[1] == "blocked" and last[2] is True))
             if not ok:
                 why.append("returns TRUE after %s=%s" % (last[1] if last else None, last[2] if last else None))
-        rep.ob("R5", "has_unit path -> %s [%s]" % (rv, show(toks)[:200]), not why, "; ".join(why),
+        rep.ob("R5", "has_unit path -> %s [%s]" % (rv, show([t for t in toks if t[0] != "call"])), not why, "; ".join(why),
                loc="%s:%d" % (F.file, F.line), site="has_unit/%s/%d" % (rv, len(toks)))
     rep.need(n_false >= 1, "has_unit never returns FALSE")
-    # which access modes look at num_blocked
-    accs = {}
+    # which access modes are told apart: `case` labels of a switch, or enumerators ABTI_pool::access is compared with
+    accs = set()
     for bid, b in F.blocks.items():
         if b.casename:
-            accs[b.casename] = bid
-    rep.ob("R5", "has_unit distinguishes all five access modes", set(accs) >= {
+            accs.add(b.casename)
+    for lab in _all_cond_labels(F):
+        m = re.match(r"^ABTI_pool::access == (ABT_POOL_ACCESS_\w+)$", lab)
+        if m:
+            accs.add(m.group(1))
+    rep.ob("R5", "has_unit distinguishes all five access modes", accs >= {
         "ABT_POOL_ACCESS_PRIV", "ABT_POOL_ACCESS_SPSC", "ABT_POOL_ACCESS_MPSC", "ABT_POOL_ACCESS_SPMC",
         "ABT_POOL_ACCESS_MPMC"}, str(sorted(accs)), loc=F.file, site="has_unit/access-modes")
-    loads = [F.nodes[i] for b, i in F.calls() if F.nodes[i]["a"] and (F.field_of(F.nodes[i]["a"][0]) or ("", ""))[1] in ("num_blocked", "num_scheds")]
+    loads = [F.nodes[i] for b, i in F.calls() if F.nodes[i]["a"] and (field_of_through(F, F.nodes[i]["a"][0]) or ("", ""))[1] in ("num_blocked", "num_scheds")]
     rep.ob("R5", "has_unit reads num_blocked / num_scheds with acquire loads", bool(loads) and all("acquire_load" in nd["fn"] for nd in loads),
            str([nd["fn"] for nd in loads]), loc=F.file, site="has_unit/acquire")
     G = P.fn("ABTI_sched_has_to_stop", "src/sched/sched.c")
-    sel = seq.Sel(calls={"ABTI_sched_has_unit"}, conds=lambda t: True, rets=True)
+    sel = Sel(calls={"ABTI_sched_has_unit"}, conds=_hs_cond, rets=True, canon=True)
     for toks, kind, rv, rtxt in seq.sequences(G, sel):
         if kind != "ret":
             continue
         why = []
-        hu = [t for t in toks if t[0] == "if" and "ABTI_sched_has_unit" in t[1]]
-        ex = [t for t in toks if t[0] == "if" and "<< 0" in t[1] or (t[0] == "if" and "ABTI_SCHED_REQ_EXIT" in t[1])]
+        hu = [t for t in toks if t[0] == "if" and t[1].startswith("has_unit")]
+        if any(t[1] != "has_unit" for t in hu):
+            why.append("unrecognised test %s" % [t[1] for t in hu if t[1] != "has_unit"][0])
         if rv == 1:
-            exit_req = any(t[0] == "if" and "request" in t[1] and t[2] and not hu for t in toks[:2])
+            exit_req = any(t[0] == "if" and t[1].startswith("request&") and t[2] and not hu for t in toks[:2])
             if not exit_req:
                 if not hu or any(t[2] for t in hu):
                     why.append("TRUE although has_unit was not observed false")
-                fin = [t for t in toks if t[0] == "if" and "request" in t[1] and "has_unit" not in t[1]]
+                fin = [t for t in toks if t[0] == "if" and t[1].startswith("request&")]
                 if len(fin) >= 2 and fin[-1][2] and len(hu) < 2:
                     why.append("finish/replace arm must re-check has_unit after reading the request")
         rep.ob("R5", "has_to_stop path -> %s [%s]" % (rv, show(toks)[:220]), not why, "; ".join(why),
@@ -294,10 +534,22 @@ def rule_R5(P, rep):
     rep.min_instances("R5", 10)
 
 
+def _ms_cond(t):
+    """thread_main_sched_func: tests of the scheduler's request word, of the scheduler ULT's request word, has_unit"""
+    if t.startswith("ABTI_sched_has_unit(") and t.endswith(")") and " == " not in t:
+        return "has_unit"
+    m = re.match(r"^ABTD_atomic_\w+_load_uint32\(&([\w:.]*?)request\) & (\d+)$", t)
+    if m:
+        return "%s.request&%s" % ("sched" if m.group(1) == "ABTI_sched::" else "thread", m.group(2))
+    if "ABTI_sched_has_unit(" in t or "request" in t:
+        return "?" + t
+    return None
+
+
 def rule_R6(P, rep):
     F = P.fn("thread_main_sched_func", "src/thread.c")
-    sel = seq.Sel(calls={"ABTI_sched_has_unit", "ABTI_ythread_resume_and_push", "ABTI_sched_discard_and_free"},
-                  indirect=True, conds=lambda t: "request" in t or "has_unit" in t, fields={"p_main_sched"})
+    sel = Sel(calls={"ABTI_sched_has_unit", "ABTI_ythread_resume_and_push", "ABTI_sched_discard_and_free"},
+                  indirect=True, conds=_ms_cond, fields={"p_main_sched"}, canon=True)
     ps = seq.sequences(F, sel, max_repeat=1, max_len=60)
     n = 0
     for toks, kind, rv, rtxt in ps:
@@ -310,16 +562,15 @@ def rule_R6(P, rep):
             why.append("does not call the scheduler's run function")
         conds = [t for t in toks if t[0] == "if"]
         last = conds[-1] if conds else None
-        cancel = last is not None and "request & (1 << 2)" in last[1] or (last is not None and "REQ_CANCEL" in last[1])
         if last is None:
             why.append("leaves the loop unconditionally")
-        elif "ABTI_sched_has_unit" in last[1]:
+        elif last[1] == "has_unit":
             if last[2] is not False:
                 why.append("leaves the loop although has_unit is true")
-            fin = [t for t in conds[:-1] if "p_sched->request" in t[1]]
+            fin = [t for t in conds[:-1] if t[1].startswith("sched.request&")]
             if not fin or fin[-1][2] is not True:
                 why.append("leaves on !has_unit without a finish request")
-        elif not (last[2] is True and "request" in last[1]):
+        elif not (last[2] is True and (last[1].startswith("sched.request&") or last[1].startswith("thread.request&"))):
             why.append("leaves the loop on %s=%s" % (last[1], last[2]))
         rep.ob("R6", "main scheduler loop exit [%s]" % show(toks)[-220:], not why, "; ".join(why),
                loc="%s:%d" % (F.file, F.line), site="main_sched_loop/%s" % (last[1][:40] if last else "none"))
@@ -329,21 +580,25 @@ def rule_R6(P, rep):
     XT = P.enum_consts["ABT_XSTREAM_STATE_TERMINATED"]
 
     def conds(text, F, node):
-        c = atomic_cmp(F, node, "ABTI_thread::state")
-        if c and c[2] == TERM:
-            return "mainsched.state%sTERMINATED/%s" % (c[1], c[0])
-        if "thread != " in text or "thread ==" in text:
-            return "popped"
+        order = atomic_test(F, node, "ABTI_thread::state", TERM)
+        if order:
+            return "mainsched.TERMINATED/%s" % order      # canonical polarity: true = the state equals TERMINATED
+        ops = _eq_operands(F, node)
+        if ops:
+            for a, b in (ops, ops[::-1]):
+                src, _at = _origin(F, a)
+                if F.nodes[src].get("k") == "call" and F.nodes[src].get("fn") == "ABTI_pool_pop" and canon._is_const(F, b):
+                    return ("popped", True)               # label `pop() == ABT_THREAD_NULL` flipped: true = a unit was popped
         return False
-    sel = seq.Sel(calls={"ABTI_pool_pop", "ABTI_ythread_schedule", "ABTI_ythread_exit_to_primary"}, fields={"state"}, conds=conds)
+    sel = Sel(calls={"ABTI_pool_pop", "ABTI_ythread_schedule", "ABTI_ythread_exit_to_primary"}, fields={"state"}, conds=conds,
+                  canon=True)
     for toks, kind, rv, rtxt in seq.sequences(R, sel, max_repeat=1, max_len=40):
         st = [i for i, t in enumerate(toks) if t[0] == "ast" and t[2] == "ABTI_xstream::state"]
         if not st:
             continue
         why = []
-        loops = [t for t in toks if t[0] == "if" and t[1].startswith("mainsched.state")]
-        if not loops or not ((loops[-1][1].startswith("mainsched.state!=") and loops[-1][2] is False) or
-                             (loops[-1][1].startswith("mainsched.state==") and loops[-1][2] is True)) or "/acquire" not in loops[-1][1]:
+        loops = [t for t in toks if t[0] == "if" and t[1].startswith("mainsched.TERMINATED")]
+        if not loops or loops[-1][2] is not True or not loops[-1][1].endswith("/acquire"):
             why.append("root loop left without an acquire observation that the main scheduler's ULT terminated")
         if toks[st[0]][3] != XT or "release" not in toks[st[0]][1]:
             why.append("stream state not release-stored TERMINATED")
@@ -360,7 +615,9 @@ def rule_R6(P, rep):
 
 def rule_R7_R8(P, rep):
     F = P.fn("xstream_join", "src/stream.c")
-    sel = seq.Sel(calls={"ABTI_sched_finish", "ABTI_thread_join", "ABTD_xstream_context_join", "ABTI_sched_exit"})
+    xs = [p["n"] for p in F.params if p["t"].replace(" ", "") == "ABTI_xstream*"]
+    rep.need(len(xs) == 1, "xstream_join: no single ABTI_xstream * parameter")
+    sel = Sel(calls={"ABTI_sched_finish", "ABTI_thread_join", "ABTD_xstream_context_join", "ABTI_sched_exit"})
     n = 0
     for toks, kind, rv, rtxt in seq.sequences(F, sel):
         if kind != "ret" or rv != 0:
@@ -373,13 +630,14 @@ def rule_R7_R8(P, rep):
         pos = [calls.index(c) if c in calls else -1 for c in want]
         ok = all(p >= 0 for p in pos) and pos == sorted(pos)
         tj = [t for t in toks if t[0] == "call" and t[1] == "ABTI_thread_join"]
-        if ok and "p_ythread" not in F.render(F.nodes[tj[0][-1]]["a"][1]):
+        # the unit joined is the ULT of the stream's main scheduler (whatever temporaries hold the pointers)
+        if ok and rooted(F, F.nodes[tj[0][-1]]["a"][1]) != "&%s->p_main_sched->p_ythread->thread" % xs[0]:
             ok = False
         rep.ob("R7", "xstream_join: finish request -> join main scheduler ULT -> join native thread [%s]" % calls, ok, "",
                loc="%s:%d" % (F.file, F.line), site="xstream_join/sequence")
     rep.need(n >= 1, "xstream_join: no joining path")
     G = P.fn("finailze_library", "src/global.c", required=False) or P.fn("finalize_library", "src/global.c")
-    sel = seq.Sel(calls={"ABTI_sched_finish", "ABTI_ythread_yield_orphan", "ABTI_xstream_free", "ABTI_ythread_free_primary",
+    sel = Sel(calls={"ABTI_sched_finish", "ABTI_ythread_yield_orphan", "ABTI_xstream_free", "ABTI_ythread_free_primary",
                          "ABTI_sched_exit"})
     n = 0
     for toks, kind, rv, rtxt in seq.sequences(G, sel, max_len=80):
@@ -393,14 +651,16 @@ def rule_R7_R8(P, rep):
                loc="%s:%d" % (G.file, G.line), site="finalize/sequence")
     rep.need(n >= 1, "finalize: no freeing path")
     E = P.fn("ABTI_xstream_check_events", "src/stream.c")
+
     def conds(text, F, node):
-        ms = seq.macros_in(F, node)
+        # the request bit tested: the macro that produced the mask, wherever the test was computed
+        ms = macros_through(F, node)
         if "ABTI_THREAD_REQ_JOIN" in ms:
             return "REQ_JOIN"
         if "ABTI_THREAD_REQ_CANCEL" in ms:
             return "REQ_CANCEL"
         return False
-    sel = seq.Sel(calls={"ABTI_sched_finish", "ABTI_sched_exit"}, conds=conds)
+    sel = Sel(calls={"ABTI_sched_finish", "ABTI_sched_exit"}, conds=conds, canon=True)
     for toks, kind, rv, rtxt in seq.sequences(E, sel):
         if kind != "ret":
             continue
@@ -420,3 +680,4 @@ def run(P, rep, tier):
     rule_R5(P, rep)
     rule_R6(P, rep)
     rule_R7_R8(P, rep)
+    c06_refs.rule_R9(P, rep)
